@@ -153,10 +153,10 @@ Section Merged.
   Qed.
 
   (* the specification state: ONE store at that path whose list is the concatenation *)
-  Variables (sg : Z) (cp : option nat).
+  Variables (sg : Z) (cp : option nat) (its : list (nat * nat)).
   Definition ident : bool := match d_index d with IxFull _ => true | _ => false end.
   Definition concat_world : sworld :=
-    mkSW [(outp, mkS (map strip items) sg ident)] (Some (mkSH (SLFile outp) MRead cp)).
+    mkSW [(outp, mkS (map strip items) sg ident)] (Some (mkSH (SLFile outp) MRead cp its)).
 
   Definition read_op (o : op) : Prop :=
     match o with Add _ | Get _ | Len | Iter _ | Sync | GetFlight _ | Evict _ => True | _ => False end.
@@ -179,9 +179,9 @@ Section Merged.
     (exists h', w' = mkW fs (Some h') /\ mh_ok h') /\ spec_step concat_world o = (concat_world, coarse r).
   Proof.
     intros (M & Hix) Ro Nd E. pose proof M as (A & B & C & D & Em & F & G).
-    assert (Hitems : s_items concat_world (mkSH (SLFile outp) MRead cp) = map strip items).
+    assert (Hitems : s_items concat_world (mkSH (SLFile outp) MRead cp its) = map strip items).
     { unfold s_items. cbn [sh_loc]. now rewrite slookup_concat. }
-    assert (Hdef : s_def concat_world (mkSH (SLFile outp) MRead cp) = Some (sg, ident)).
+    assert (Hdef : s_def concat_world (mkSH (SLFile outp) MRead cp its) = Some (sg, ident)).
     { unfold s_def. cbn [sh_loc]. now rewrite slookup_concat. }
     destruct o; try contradiction Ro; cbn [step w_h w_fs] in E.
     - (* Add *) unfold add in E. rewrite D in E. injection E as <- <-. split; [exists h; split; auto; split; auto|].
@@ -306,7 +306,7 @@ Theorem merged_is_concat fs0 outp ins fs' cp :
     ident d = all_indexed fs0 ins /\
     forall sg ops, reads_ok parts ops ->
       map coarse (snd (run fixed_cfg (mkW fs' (Some h)) ops))
-      = snd (spec_run (concat_world outp d parts sg cp) ops).
+      = snd (spec_run (concat_world outp d parts sg cp []) ops).
 Proof.
   intros Wf E parts. apply merge_success in E as (P & (M & I & T)).
   destruct P as [Px Pf Pnc Pfiles Pb Psig Pidx].
